@@ -73,6 +73,41 @@ def ifft2(a, s=None, axes=(-2, -1), norm=None, **k):
     return ifft(out, s[1], axes[1], norm)
 
 
+def rfft2(a, s=None, axes=(-2, -1), norm=None, **k):
+    """real-input transform: the non-negative frequencies of the last axis (n//2 + 1 columns)"""
+    if tuple(axes) != (-2, -1):
+        raise NotEncodable('rfft2 over other axes')
+    full = fft2(a, s, axes, norm)
+    n = full.shape[-1]
+    return full[..., : n // 2 + 1]
+
+
+def irfft2(a, s=None, axes=(-2, -1), norm=None, **k):
+    """inverse of rfft2: the last axis of the output has s[-1] samples, by numpy's default 2*(columns - 1); the missing half of the
+    spectrum is the Hermitian mirror of the given half"""
+    if tuple(axes) != (-2, -1):
+        raise NotEncodable('irfft2 over other axes')
+    a = symnp.asarray(a)
+    if a.ndim != 2:
+        raise NotEncodable('irfft2 of a non-2D array')
+    m, kcols = a.shape
+    mo = s[0] if s is not None else m
+    n = s[1] if s is not None else 2 * (kcols - 1)
+    if mo != m:
+        raise NotEncodable('irfft2 with a different row count')
+    import numpy as _np
+    full = _np.empty((m, n), dtype=object)
+    for i in range(m):
+        for j in range(n):
+            if j < kcols and j <= n // 2:
+                full[i, j] = a[i, j]
+            else:
+                v = a[(-i) % m, n - j] if (n - j) < kcols else 0
+                full[i, j] = v.conjugate() if hasattr(v, 'conjugate') else v
+    out = ifft2(full.view(symnp.SymArray), None, axes, norm)
+    return out.real
+
+
 def fftshift(x, axes=None):
     return symnp._wrap(_np.fft.fftshift(_np.asarray(symnp.asarray(x), dtype=object), axes=axes))
 
